@@ -23,7 +23,7 @@ func init() {
 		Title: "A bundle survives being re-opened and archived",
 		Rules: []func(*Checker){ruleC09Fields, ruleC09Archive, ruleChecksum("C09.checksum"), ruleC06ManifestAs("C09.addrs"),
 			aliasRuleFiltered(ruleC06CanonURL, "C06.canonurl", "C09.canonkey", 1, func(o Oblig) bool { return strings.Contains(o.Key, "canonical") }),
-			aliasRuleFiltered(ruleC13Maps, "C13.maps", "C09.lookup", 3, func(o Oblig) bool { return strings.Contains(o.Key, "sourcebundle.Bundle)") })},
+			aliasRuleFiltered(ruleC13Maps, "C13.maps", "C09.lookup", 3, func(o Oblig) bool { return strings.Contains(o.Key, "sourcebundle.Bundle)") || strings.Contains(o.Key, "sourcebundle.OpenDir/") })},
 		NotDecided: []string{
 			"equality of two bundles; the Pack/Unpack round trip (C02) and address round trip (C06) for the values involved",
 			"package metadata with an empty commit id is not re-created on re-open (asymmetry noted, outside the structural rule)",
@@ -31,7 +31,7 @@ func init() {
 	})
 	register("C10", &propDef{
 		Title: "Bundle package directories are sanitised",
-		Rules: []func(*Checker){ruleC10Walked, ruleC10Exits, ruleC10Tmp, ruleC10Inside, ruleC03PruneAs("C10.ignored"), ruleC03BundleAs("C10.removed")},
+		Rules: []func(*Checker){ruleC10Walked, ruleC10Exits, ruleC10Links, ruleC10Tmp, ruleC10Inside, ruleC03PruneAs("C10.ignored"), ruleC03BundleAs("C10.removed")},
 		NotDecided: []string{
 			"what filepath.EvalSymlinks resolves to; races with other processes modifying the temporary directory",
 			"what the fetcher itself writes",
@@ -1528,4 +1528,140 @@ func flatJoinArgs(cl ssa.CallInstruction) []ssa.Value {
 		args = append(append([]ssa.Value{}, joinArgs(inner)...), args[1:]...)
 	}
 	return args
+}
+
+// C10.links — a package link is judged by how its target is spelled, too.
+func ruleC10Links(c *Checker) {
+	const R = "C10.links"
+	c.rule(R, "The package directory is renamed after the preparation walk and a finished bundle may be moved or archived, so where a link resolves during the walk is not enough: every non-error exit of the walk callback that can be reached for a symlink entry (it is not past the not-a-symlink edge of a test of the entry's mode) lies past the is-relative edge of filepath.IsAbs on the os.Readlink of the entry and past the tests that the target joined onto the entry's directory below the root is neither \"..\" nor starts with \"../\".", 1)
+	p := c.P
+	ws := bundleWalks(p)
+	if len(ws) == 0 {
+		c.anchorMissing(R, "the bundle preparation walk callback")
+		return
+	}
+	for _, fn := range ws {
+		name := p.FuncName(fn)
+		var pathParam, infoParam *ssa.Parameter
+		for _, prm := range fn.Params {
+			if isStringType(prm.Type()) && pathParam == nil {
+				pathParam = prm
+			}
+			if n, ok := types.Unalias(prm.Type()).(*types.Named); ok && n.Obj().Name() == "FileInfo" {
+				infoParam = prm
+			}
+		}
+		// not-a-symlink edges: info.Mode()&ModeSymlink tests
+		tE, fE := condEdges(fn, func(v ssa.Value) bool {
+			bo, ok := v.(*ssa.BinOp)
+			if !ok || (bo.Op != token.NEQ && bo.Op != token.EQL) {
+				return false
+			}
+			and, ok := bo.X.(*ssa.BinOp)
+			if !ok || and.Op != token.AND {
+				return false
+			}
+			for w := range p.backSlice(and, 0) {
+				if cl, ok := w.(*ssa.Call); ok && cl.Call.IsInvoke() && cl.Call.Method.Name() == "Mode" && infoParam != nil && canon(cl.Call.Value) == ssa.Value(infoParam) {
+					return true
+				}
+			}
+			return false
+		})
+		var notLink []Edge
+		for _, e := range tE {
+			if ifi, ok := e.From.Instrs[len(e.From.Instrs)-1].(*ssa.If); ok {
+				cnd, neg := stripNot(ifi.Cond)
+				if bo, ok := cnd.(*ssa.BinOp); ok && (bo.Op == token.EQL) != neg {
+					notLink = append(notLink, e)
+				}
+			}
+		}
+		for _, e := range fE {
+			if ifi, ok := e.From.Instrs[len(e.From.Instrs)-1].(*ssa.If); ok {
+				cnd, neg := stripNot(ifi.Cond)
+				if bo, ok := cnd.(*ssa.BinOp); ok && (bo.Op == token.NEQ) != neg {
+					notLink = append(notLink, e)
+				}
+			}
+		}
+		// the target text
+		var target ssa.Value
+		for _, ci := range callsTo(fn, func(o *types.Func) bool { return isFunc(o, "os", "Readlink") }) {
+			cl := ci.(*ssa.Call)
+			if pathParam != nil && canon(cl.Call.Args[0]) == ssa.Value(pathParam) {
+				target = extractOf(cl, 0)
+			}
+		}
+		if target == nil {
+			c.fail(R, name, "link target read", p.Pos(fn.Pos()), "the walk never reads a link's target text (os.Readlink of the entry): an absolute target, or one that leaves the package and re-enters it through the directory's temporary name, resolves inside the package during the walk and dangles once the directory is renamed")
+			continue
+		}
+		_, relE := condEdges(fn, func(v ssa.Value) bool {
+			cl, ok := v.(*ssa.Call)
+			return ok && isFunc(calleeObj(cl), "path/filepath", "IsAbs") && canon(cl.Call.Args[0]) == target
+		})
+		var nddE, npE []Edge
+		isJoined := func(v ssa.Value) bool {
+			cl := callOf(canon(v))
+			if cl == nil || !isFunc(calleeObj(cl), "path/filepath", "Join") {
+				return false
+			}
+			return p.backSlice(cl, 0)[target]
+		}
+		_, eqF := condEdges(fn, func(v ssa.Value) bool {
+			bo, ok := v.(*ssa.BinOp)
+			if !ok || bo.Op != token.EQL {
+				return false
+			}
+			sv, ok := constString(bo.Y)
+			return ok && sv == ".." && isJoined(bo.X)
+		})
+		neT, _ := condEdges(fn, func(v ssa.Value) bool {
+			bo, ok := v.(*ssa.BinOp)
+			if !ok || bo.Op != token.NEQ {
+				return false
+			}
+			sv, ok := constString(bo.Y)
+			return ok && sv == ".." && isJoined(bo.X)
+		})
+		nddE = append(eqF, neT...)
+		_, npE = condEdges(fn, func(v ssa.Value) bool {
+			cl, ok := v.(*ssa.Call)
+			if !ok || !isFunc(calleeObj(cl), "strings", "HasPrefix") || !isJoined(cl.Call.Args[0]) {
+				return false
+			}
+			sv, ok := constString(cl.Call.Args[1])
+			return ok && (sv == "../" || sv == `..\`)
+		})
+		n := 0
+		for i, r := range returnsOf(fn) {
+			if !mayReturnNilErr(r) {
+				continue
+			}
+			// exits that removed the entry or concern the root are not 'kept link' exits
+			if guarded(r.Block(), rootEdges(fn)) {
+				continue
+			}
+			if ok, _ := mustPassBackward(r, func(in ssa.Instruction) bool { return p.removesPath(in, pathParam) }); ok {
+				continue
+			}
+			if p.guardedC(r.Block(), notLink) {
+				continue // cannot be reached for a link
+			}
+			n++
+			ok := true
+			why := ""
+			for _, g := range []struct {
+				e   []Edge
+				why string
+			}{{relE, "an absolute target is not refused"}, {nddE, "a target that leads to the parent of the package root is not refused"}, {npE, "a target that climbs out of the package (and may come back in by name) is not refused"}} {
+				if !p.guardedC(r.Block(), append(append([]Edge{}, notLink...), g.e...)) {
+					ok, why = false, g.why
+				}
+			}
+			c.check(ok, R, name, fmt.Sprintf("exit %d: link target spelling judged", i), p.Pos(r.Pos()), "for a link, reached only past IsAbs-false and the \"..\" tests of its target from the root", "a link can be kept on where it resolves during the walk alone ("+why+"): spelled through the directory's temporary name it dangles, pointing out of its package, once the directory is renamed")
+		}
+		c.check(n > 0, R, name, "exits reachable for links", p.Pos(fn.Pos()), fmt.Sprintf("%d", n), "no non-error exit of the walk can be reached for a symlink entry (links are no longer kept at all)")
+	}
 }
